@@ -43,6 +43,11 @@ def _strategy(shapes):
             case["y"] = np.asarray(case["y"], float) + shift
         else:
             case["shift"] = 0.0
+        # dtype regime: integer-valued observations (counts, labels) passed as an INTEGER array; the offset b stays real.  Not
+        # combined with a single-precision network (JAX promotes int64 with float32 to float32: the user's precision choice).
+        if not case["c"].get("f32_net") and draw(st.sampled_from([False] * 7 + [True])):
+            case["y"] = np.round(np.asarray(case["y"], float))
+            case["y_int"] = True
         return case
     return s()
 
@@ -57,12 +62,13 @@ def _run(case):
     M, b, S = gen.cond_np(case["c"])
     Dx, Dy, No, Np, Rc = case["Dx"], case["Dy"], case["No"], case["Np"], case["Rc"]
     x, y = np.asarray(case["x"], float), np.asarray(case["y"], float)
+    yJ = (lambda a: jnp.asarray(np.asarray(a).astype(np.int64))) if case.get("y_int") else J
     ok, cu = lib(fails, "construct_cond", libx.make_cond, case["c"])
     if not ok:
         return fails
     c, kw = cu
     tag = f"set_y[{fam}]"
-    ok, f = lib(fails, tag, lambda: c.set_y(J(y), **kw))
+    ok, f = lib(fails, tag, lambda: c.set_y(yJ(y), **kw))
     if not ok:
         return fails
     # reference [No, Np]
@@ -95,7 +101,7 @@ def _run(case):
     # (with a large common offset the density cond(x) is evaluated in information form at |y| >> sd: its natural scale is
     #  then |y|^2/sd^2, so this identity is only judged without the offset)
     if ok and Rc == 1 and not case.get("shift"):
-        ok, ev = lib(fails, tag + ":cond(x)(y)", lambda: d.evaluate_ln(J(y)))  # [Np, No]
+        ok, ev = lib(fails, tag + ":cond(x)(y)", lambda: d.evaluate_ln(yJ(y)))  # [Np, No]
         if ok:
             check(fails, tag + ":cond(x)(y)_reference", np.asarray(ev).T, want, scale)
     # well-formed batch with one component per observation
@@ -150,7 +156,7 @@ def _nontrivial(case):
 
 
 def _labels(case):
-    return [f"kind={case['kind']}", "paired" if case["Rc"] > 1 else "broadcast", "Dx!=Dy" if case["Dx"] != case["Dy"] else "Dx=Dy", f"No={case['No']}", f"shift={case.get('shift', 0.0):g}"]
+    return [f"kind={case['kind']}", "paired" if case["Rc"] > 1 else "broadcast", "Dx!=Dy" if case["Dx"] != case["Dy"] else "Dx=Dy", f"No={case['No']}", f"shift={case.get('shift', 0.0):g}", "y_integer_dtype" if case.get("y_int") else "y_float"]
 
 
 SUBS = [
